@@ -21,7 +21,9 @@ Inductive leaf :=
 | LReturn (n : option nat)        (* return [n] *)
 | LExit (n : option nat)          (* exit [n] *)
 | LSet (o : sopt) (on : bool)     (* set -e / set +e / set -u / set -o pipefail ... *)
-| LCall (f : nat).                (* fF   (call of shell function number F) *)
+| LCall (f : nat)                 (* fF   (call of shell function number F) *)
+| LAssign (s : option nat).       (* v=1  /  v=$(exit n) : assignment-only command, optionally with one
+                                     command substitution of scripted status *)
 
 (** what follows a case item: [;;]  [;&]  [;;&] *)
 Inductive post := PExit | PFall | PNext.
@@ -29,6 +31,10 @@ Inductive post := PExit | PFall | PNext.
 Definition pipeline_ (C : Type) : Type := (bool * list C)%type.                 (* bang, stages *)
 Definition andor_ (C : Type) : Type := (pipeline_ C * list (bool * pipeline_ C))%type. (* first, (is_and, p)* *)
 Definition clist_ (C : Type) : Type := list (andor_ C).
+
+(** a redirection attached to a compound command; all of these succeed and leave stdout alone:
+    [< /dev/null]   [2>/dev/null]   [2>&1]   [<<<x] *)
+Inductive rkind := RIn | RErrNull | RErrOut | RHere.
 
 Inductive cmd :=
 | Leaf (l : leaf)
@@ -39,7 +45,8 @@ Inductive cmd :=
 | Loop (is_until : bool) (c b : clist_ cmd)
 | For (arith : bool) (n : nat) (b : clist_ cmd)      (* for v in 1..n  /  for ((i=0;i<n;i++)) *)
 | Case (arms : list (bool * post * option (clist_ cmd)))   (* pattern matches?, terminator, body *)
-| FunDef (f : nat) (body : cmd).
+| FunDef (f : nat) (body : cmd)
+| Redir (k : rkind) (c : cmd).                        (* compound command with a redirect list *)
 
 Definition pipeline := pipeline_ cmd.
 Definition andor := andor_ cmd.
